@@ -6,8 +6,8 @@ from mc.core import Acc, Hang, horizon
 
 ID = "C17"
 RULE = ("E-FULL: every day of the tier's year set (quick: 1900, 1999-2004, 2100, 2200; thorough: every day 1900-2200) at 3 "
-        "instants x 7 units x floor/ceil/round/offset(k in {0,1,2,7,31,400}); every hour of 2000, 2021, 2100 for "
-        "second/minute/hour; thorough: every k in 0..400 from each day of 1999-2001 and 2099-2101. E-INPUT: range(t0,t1,dt) "
+        "instants x 7 units x floor/ceil/round/offset(k in {0,1,2,7,31,400}); every hour of 2000, 2021, 2100 (thorough: 10 years incl. 1900, 1969, 1970, 2038, 2200) for "
+        "second/minute/hour; thorough: every k in 0..400 from each day of 12 years (1900 ... 2199). E-INPUT: range(t0,t1,dt) "
         "for start instants around every month end/week boundary of 2019-2020 x 5 spans x dt 1..12 x 7 units. Oracle R-CAL "
         "(datetime/timedelta/calendar). Non-trivial: the instant is not itself a boundary / the range is non-empty.")
 ASSUMPTIONS = ["for the week unit with dt>1 only numbering-agnostic periodicity inside a year is demanded (the statement does not fix a week numbering)",
@@ -49,10 +49,10 @@ def plan(tier, seed):
     else:
         for y in range(1900, 2201, 4):
             shards.append({"kind": "days", "y0": y, "y1": min(2200, y + 3)})
-        for y in (1999, 2000, 2001, 2099, 2100, 2101):
+        for y in (1900, 1904, 1969, 1970, 1999, 2000, 2001, 2038, 2099, 2100, 2101, 2199):
             for half in (0, 1):
                 shards.append({"kind": "allk", "y": y, "half": half})
-    for y in (2000, 2021, 2100):
+    for y in ((2000, 2021, 2100) if tier == "quick" else (1900, 1969, 1970, 2000, 2004, 2021, 2038, 2100, 2199, 2200)):
         for q in range(4):
             shards.append({"kind": "hours", "y": y, "q": q})
     starts = start_instants()
